@@ -78,26 +78,40 @@ pub fn expect_equal(
             // attribution to stages, to recognise known findings by call site
             let t = stages::trace(ev);
             let sp = spec::spec(&ctx.classes, tcs, s);
-            let mut rep = attrib::analyse(&t, s, out, &sp);
+            let rep = attrib::analyse(&t, s, out, &sp);
+            let mut clean = rep.clean();
+            let mut summary = rep.summary();
+            // deviations from the specification that reached the output, per side
+            let mut on_path: Vec<attrib::StageDiff> = rep.diffs.iter().filter(|d| d.on_path).cloned().collect();
             if let Some((rs, rout, rev)) = right_build {
                 let rt = stages::trace(rev);
                 let rsp = spec::spec(&ctx.classes, tcs, rs);
                 let rrep = attrib::analyse(&rt, rs, rout, &rsp);
-                rep.diffs.extend(rrep.diffs);
-                rep.inconclusive.extend(rrep.inconclusive);
-                rep.invalid.extend(rrep.invalid);
-                rep.missing_events |= rrep.missing_events;
+                clean &= rrep.clean();
+                summary = format!("{summary} || reference build: {}", rrep.summary());
+                for d in rrep.diffs.iter().filter(|d| d.on_path) {
+                    // the same known deviation on both sides does not explain a difference between them
+                    if let Some(k) = on_path.iter().position(|l| l.known.is_some() && l.known == d.known && l.from == d.from && l.to == d.to && l.witness == d.witness && l.to_accepts == d.to_accepts) {
+                        on_path.remove(k);
+                    } else {
+                        on_path.push(d.clone());
+                    }
+                }
             }
-            case["stage_attribution"] = json!(rep.summary());
+            case["stage_attribution"] = json!(summary);
+            let mut ids: Vec<&'static str> = on_path.iter().filter_map(|d| d.known).collect();
+            ids.sort();
+            ids.dedup();
+            let explained = clean && !on_path.is_empty() && on_path.iter().all(|d| d.known.is_some()) && ids.iter().all(|id| ctx.run.kf.enabled(&ctx.run.prop, id));
             let detail = format!(
                 "{} {:?} but reference {}; stages: {}",
                 if left_accepts { "accepts" } else { "rejects" },
                 witness,
                 if left_accepts { "rejects it" } else { "accepts it" },
-                rep.summary()
+                summary
             );
-            if rep.all_known() && rep.known_ids().iter().all(|id| ctx.run.kf.enabled(&ctx.run.prop, id)) {
-                for id in rep.known_ids() {
+            if explained {
+                for id in ids {
                     st.known(id, detail.clone(), case.clone());
                 }
                 Outcome::Known
